@@ -201,7 +201,7 @@ def gen_cases(seed, chunk, n, tier):
             nontrivial = len(a.blocks) >= 2
         else:  # einsum: trace pairs + permutation
             npairs = rng.randint(0, 2)
-            nfree = rng.randint(0 if npairs else 1, 2)
+            nfree = rng.randint(0 if npairs else 1, 2 if npairs == 2 else (3 if npairs == 1 else 4))
             labels = []
             idxs = []
             for q in range(npairs):
